@@ -24,6 +24,8 @@ EXPLANATION = (
     "(and init_bins, a tabled exception) tell one- from multidimensional edges by the same test on edges[0].  Does not decide that the interpolation "
     "search returns the right index (loop invariants over floats).")
 RULES = {
+    "C06-h": "VERDICT USED: no statement-level call discards the result of a lena function that returns a value on every path "
+             "(check_edges_increasing and its helper either raise or are acted upon)",
     "C06-a": "ONCE: exactly one `+= weight` per fill on every path, on a cell reached from self.bins in this call; no other state",
     "C06-b": "GUARD: bins[ind] is dominated by `ind < 0` excluded and enclosed by `except IndexError`",
     "C06-c": "AGREE: all value/edge comparisons use <, >=, == only (half-open intervals)",
@@ -415,7 +417,60 @@ def check_progress(ctx):
     ctx.instances_floor("C06-f", n, 3, "ways round the search loop of get_bin_on_value_1d")
 
 
+def _always_returns_value(fn):
+    if A.is_generator(fn):
+        return False
+    try:
+        ps = P.paths_of(fn)
+    except Exception:
+        return False
+    ok = False
+    for p in ps:
+        if p.end == "raise":
+            continue
+        rets = [s for s in p.stmts() if isinstance(s, ast.Return)]
+        if not rets or rets[-1].value is None or A.is_const(rets[-1].value, None):
+            return False
+        ok = True
+    return ok
+
+
+def check_verdict_used(ctx):
+    """A checking helper either raises itself (and is called as a statement) or returns its verdict (and the caller must act on
+    it).  A function of lena that returns a value on every normal path, called as a bare statement, has its answer thrown
+    away: a validation turned from raising into returning True/False while one of its call sites still ignores the result
+    silently accepts what it was there to reject (non-increasing edges of a multidimensional histogram).  Tree-wide, resolved
+    module-level functions of lena; none on the reference tree."""
+    res = ctx.res
+    n_calls = n_q = 0
+    cache = {}
+    for mod, fn in ctx.tree.functions():
+        for st in A.walk_local(fn):
+            if not (isinstance(st, ast.Expr) and isinstance(st.value, ast.Call)):
+                continue
+            c = res.call_canon(st.value)
+            if not c or not c.startswith("lena."):
+                continue
+            m, _, q = c.rpartition(".")
+            callee = ctx.tree.maybe(m, q)
+            if not isinstance(callee, ast.FunctionDef):
+                continue
+            n_calls += 1
+            if c not in cache:
+                cache[c] = _always_returns_value(callee)
+            if cache[c]:
+                n_q += 1
+                ctx.violation("C06-h", st, "%s calls `%s` as a statement, but %s returns a value on every path: its verdict is "
+                              "discarded (a check that reports by its result, not by raising, rejects nothing here)"
+                              % (A.qualname(fn), A.short(st.value, 50), q), construct="verdict-dropped:%s:%s" % (A.qualname(fn), q))
+    ctx.note("statement_calls_of_lena_functions", n_calls)
+    ctx.instances_floor("C06-h", n_calls, 20, "statement-level calls of module functions of lena")
+    if not n_q:
+        ctx.ok("C06-h", ctx.tree.func(HF, "check_edges_increasing"), "%d statement calls of lena functions: none discards a returned verdict" % n_calls)
+
+
 def check(ctx):
+    check_verdict_used(ctx)
     K.check_dimension_predicates(ctx, "C06-g", "dim, nbins and ranges of the histogram no longer describe the bins that fill() walks")
     check_progress(ctx)
     check_once(ctx)
@@ -428,6 +483,8 @@ def check(ctx):
 
 
 VARIANTS = [
+    V("mutant", "edges-check-returns-verdict", None, None, None, ["C06-h"], edits=[
+        ("lena/structures/hist_functions.py", "    if not all(increasing):\n        raise lena.core.LenaValueError(\n            \"expected strictly increasing values, \"\n            \"{} provided\".format(arr)\n        )\n", "    return all(increasing)\n", 0)]),
     M("histogram-dim-lists-only", "lena/structures/histogram.py", "        if hasattr(edges[0], \"__iter__\"):\n            self.dim = len(edges)", "        if isinstance(edges[0], list):\n            self.dim = len(edges)", ["C06-g"]),
     M("search-safeguard-removed", "lena/structures/hist_functions.py", "            elif ind_max == ind_guess:\n                ind_max -= 1\n                continue\n", "", ["C06-f"]),
     M("search-first-guard-removed", "lena/structures/hist_functions.py", "            if ind_min == ind_guess:\n                ind_min += 1\n                continue\n            # ind_max is always more that ind_guess,\n            # because val < arr[ind_max] (see the formula for shift).\n            # This branch is not needed and can't be tested.\n            # But for the sake of numerical inaccuracies, let us keep this\n            # so that we never get into an infinite loop.\n            elif ind_max == ind_guess:", "            if ind_max == ind_guess:", ["C06-f"]),
